@@ -246,6 +246,8 @@ func asm14RealExec(c *Ctx, op string) {
 		"w4": {d(""), fl("file4", "four"), Entry{Name: "shared", Kind: 'd', Perms: 02775, Uid: 7, Gid: 7, Sec: 1e9}},
 		// w5 is requested with an altering unpack filter (owner and mtime forced): it is shelved under the filtered id
 		"w5": {d(""), fl("file5", "five"), d("d5"), fl("d5/inner5", "i5")},
+		// w6 is an empty fileset: one directory with properties of its own, nothing in it
+		"w6": {Entry{Name: "", Kind: 'd', Perms: 0750, Uid: 4000, Gid: 5000, Sec: 1.45e9}},
 	}
 	{
 		acc := ""
@@ -451,6 +453,30 @@ func asm14RealExec(c *Ctx, op string) {
 			get["/"+e.Name] = e
 		}
 		for _, a := range ins {
+			if a.kind == "w6" { // an empty fileset hides whatever a shallower input put there: nothing shows below it but deeper inputs
+				pre := strings.TrimSuffix(a.path, "/") + "/"
+				for _, e := range sn0 {
+					n := "/" + e.Name
+					if !strings.HasPrefix(n, pre) || n == "/" || n == strings.TrimSuffix(a.path, "/") {
+						continue
+					}
+					mine := false
+					for _, b := range ins {
+						bp := strings.TrimSuffix(b.path, "/")
+						if b != a && (n == bp || strings.HasPrefix(n, bp+"/") || strings.HasPrefix(bp, n+"/")) && strings.HasPrefix(bp+"/", pre) {
+							mine = true
+						}
+					}
+					if !mine {
+						c.PropFail("asm-shadowing", fmt.Sprintf("input %s is an empty fileset, yet %s shows below it (a shallower input's content shows through)", a.path, n), op)
+						break
+					}
+				}
+				if e, ok := get[strings.TrimSuffix(a.path, "/")]; ok && a.path != "/" && (e.Perms != 0750 || e.Uid != 4000 || e.Gid != 5000) {
+					c.PropFail("asm-shadowing", fmt.Sprintf("input %s (empty fileset, 0750 4000:5000) shows as %o %d:%d", a.path, e.Perms, e.Uid, e.Gid), op)
+				}
+				continue
+			}
 			marker := map[string]string{"w0": "file0", "w1": "file1", "w2": "file2", "w3": "file3", "w4": "file4", "w5": "file5", "ro": "hostfile", "rw": "hostfile"}[a.kind]
 			p := strings.TrimSuffix(a.path, "/") + "/" + marker
 			covered := false
@@ -700,6 +726,7 @@ func asm14Engine(c *Ctx) {
 		// a symlink higher up the parent chain whose remaining chain exists behind the link (relative / absolute, re-rooted)
 		"/=w1,/lnk/deep/x=w0", "/=w1,/lnk/deep/er/x=w0", "/=w2,/abs/osub/x=w0", "/a=w1,/a/lnk/deep/x=w0", "/=w1,/lnk/deep/x=ro",
 		"/=w5", "/=w0,/d/x=w5", "/a=w5,/a/d5/y=w0,/b=w5",
+		"/=w0,/d=w6", "/=w1,/d=w6,/d/deep/z=w0", "/a=w5,/a/d5=w6", "/=w6", "/x/y=w6",
 		"/=w1,/lnk=w0", "/=w1,/lnk=ro", "/=w1,/lnk=rw", "/=w2,/abs=w0", "/=w2,/abs=rw", "/=w3,/up=ro", "/a=w1,/a/lnk=rw", "/a=w2,/a/abs=ro",
 	}
 	for _, rc := range realCorpus {
@@ -712,7 +739,7 @@ func asm14Engine(c *Ctx) {
 	}
 	asm14ReuseExec(c, "asm14 reuse real-then-link")
 	asm14ReuseExec(c, "asm14 reuse filler-twice")
-	kinds := []string{"w0", "w1", "w2", "w3", "w0", "w1", "ro", "rw", "w5"}
+	kinds := []string{"w0", "w1", "w2", "w3", "w0", "w1", "ro", "rw", "w5", "w6"}
 	rpool := []string{"/", "/a", "/ab", "/a/b", "/d", "/d/x", "/lnk/x", "/abs/y", "/up/z", "/lnk", "/abs", "/up", "/sub/deeper/q", "/a/lnk/k", "/lnk/deep/x", "/abs/osub/y", "/lnk/deep/er/z", "/pre/existing/n", "/data", "/data-extra", "/data/sub"}
 	for k := 0; k < nReal; k++ {
 		n := 1 + c.Intn(4)
